@@ -482,6 +482,33 @@ def judge(col, case, scn, ref, run, devs):
     return ok
 
 
+def mask_points(a, b):
+    """point list with the path components that differ between two
+    fault-free runs (random temporary names) replaced by '*'; None if the
+    two runs differ in more than such names"""
+    if len(a) != len(b):
+        return None
+    out = []
+    for (na, pa), (nb, pb) in zip(a, b):
+        ca, cb = pa.split("/"), pb.split("/")
+        if na != nb or len(ca) != len(cb):
+            return None
+        out.append((na, tuple(x if x == y else "*" for x, y in zip(ca, cb))))
+    return out
+
+
+def prefix_matches(pts, mask, upto):
+    """do the first `upto` points of a run follow the masked recording?"""
+    if len(pts) < upto or len(mask) < upto:
+        return False
+    for (n, p), (mn, mc) in zip(pts[:upto], mask[:upto]):
+        c = p.split("/")
+        if n != mn or len(c) != len(mc) or any(
+                m != "*" and m != x for x, m in zip(c, mc)):
+            return False
+    return True
+
+
 def explore(col, scn, tier):
     ref = execute(scn, {})
     case0 = {"scenario": scn}
@@ -494,7 +521,8 @@ def explore(col, scn, tier):
         return
     # determinism of the recording
     again = execute(scn, {})
-    if again["points"] != ref["points"] or again["tree"] != ref["tree"]:
+    mask = mask_points(ref["points"], again["points"])
+    if mask is None or again["tree"] != ref["tree"]:
         raise RuntimeError("fault-free run is not reproducible: %r vs %r"
                            % (again["points"], ref["points"]))
     # _pyio.open <-> C io: the same history with the stock open() must
@@ -518,10 +546,11 @@ def explore(col, scn, tier):
                                        for k, a in devs.items()})
         run = execute(scn, devs)
         k_last = max(devs)
-        if run["points"][:k_last + 1] != prefix_pts[:k_last + 1] and \
-                len(run["applied"]) == len(devs):
+        k_first = min(devs)
+        if len(run["applied"]) == len(devs) and not prefix_matches(
+                run["points"], mask, k_first + 1):
             raise RuntimeError("prefix divergence: %r vs %r" % (
-                run["points"][:k_last + 1], prefix_pts[:k_last + 1]))
+                run["points"][:k_first + 1], mask[:k_first + 1]))
         if len(run["applied"]) < len(devs):
             col.ev(1, 1, "deviation-not-reached")
             return run
@@ -558,7 +587,10 @@ def conformance_candidates(scns=None):
             continue      # the child opens the dataset the documented way
         ref = execute(scn, {})
         pts = ref["points"]
+        mask = mask_points(pts, execute(scn, {})["points"])
         for k in range(len(pts)):
+            if mask is None or "*" in mask[k][1]:
+                continue      # a random temporary name cannot be targeted
             for dev in iosim.menu_for(pts[k]):
                 if conformance.expressible(pts, k, dev):
                     out.append((scn, k, list(dev)))
